@@ -231,6 +231,16 @@ func (pConn *PFCPConn) handleSessionModificationRequest(msg message.Message) (me
 		return sendError(ErrNotFoundWithParam("PFCP session", "localSEID", localSEID))
 	}
 
+	// Work on a copy of the rule lists: the stored session shares their backing
+	// arrays and must stay as installed if this request is rejected half-way.
+	session.pdrs = append(make([]pdr, 0, len(session.pdrs)+MaxItems), session.pdrs...)
+	session.fars = append(make([]far, 0, len(session.fars)+MaxItems), session.fars...)
+	session.qers = append(make([]qer, 0, len(session.qers)+MaxItems), session.qers...)
+
+	for i := range session.pdrs {
+		session.pdrs[i].qerIDList = append([]uint32(nil), session.pdrs[i].qerIDList...)
+	}
+
 	var fseidIP uint32
 
 	if smreq.CPFSEID != nil {
